@@ -22,45 +22,151 @@ fn bad_sig(v: &Verdict) -> Option<&str> {
     }
 }
 
-/// Reduce a violating (text, config) to its minimal witness: knobs reset to default where the same
-/// failure persists, then lines and characters dropped while the same signature is produced.
-pub fn minimise(prop: &str, cs: &ConfigSpace, dflt: &Built, parts: &[String], b: &Built, sig: &str, judge: Judge) -> Violation {
-    let text_owned = parts.concat();
-    let text = text_owned.as_str();
+/// a violating case as found by the explorer (not yet minimised)
+#[derive(Clone)]
+pub struct Raw {
+    pub parts: Vec<String>,
+    pub cfg: Cfg,
+    pub sig: String,
+}
+
+/// raw violating cases of the running phase (filled by the workers, drained by `resolve`)
+static RAWS: std::sync::Mutex<Vec<Raw>> = std::sync::Mutex::new(Vec::new());
+
+fn same_failure(judge: Judge, sig: &str, clean: bool, t: &str, b: &Built) -> bool {
+    bad_sig(&judge(t, b)) == Some(sig) && (!clean || parse(t, b.level).get_errors().is_empty())
+}
+
+/// Step 1 of the minimisation of a raw case: fewest knob deviations, then whole parts dropped.
+/// Returns the configuration kept and the part-reduced text.
+fn reduce(ctx: &Ctx, raw: &Raw) -> (Cfg, String) {
+    let b = ctx.cs.build(&raw.cfg);
+    let text = raw.parts.concat();
     // a witness for an input that parses cleanly (no syntax and no doc error) must itself parse cleanly
-    let clean = parse(text, b.level).get_errors().is_empty();
-    let same = |t: &str, b: &Built| bad_sig(&judge(t, b)) == Some(sig) && (!clean || parse(t, b.level).get_errors().is_empty());
-    // 1. fewest deviations
-    let mut owned: Option<Built> = None;
-    let mut cur: &Built = b;
+    let clean = parse(&text, b.level).get_errors().is_empty();
+    let same = |t: &str, b: &Built| same_failure(ctx.judge, &raw.sig, clean, t, b);
+    let mut cur: Built = ctx.cs.build(&raw.cfg);
     if !b.cfg.is_default() {
-        if same(text, dflt) {
-            cur = dflt;
+        if same(&text, ctx.dflt) {
+            cur = ctx.cs.build(&Cfg::default());
         } else if b.cfg.devs.len() > 1 {
             for d in &b.cfg.devs {
-                let c1 = cs.build(&Cfg { devs: vec![d.clone()] });
-                if same(text, &c1) {
-                    owned = Some(c1);
+                let c1 = ctx.cs.build(&Cfg { devs: vec![d.clone()] });
+                if same(&text, &c1) {
+                    cur = c1;
                     break;
                 }
             }
-            if let Some(o) = owned.as_ref() {
-                cur = o;
-            }
         }
     }
-    // 2. text
-    let key = format!("{prop}\u{0}{sig}\u{0}{}", cur.cfg.to_json());
-    let min = minimise_cached(&key, parts, |t| same(t, cur));
-    // 3. the minimal text may fail under the default configuration as well
-    if !cur.cfg.is_default() && same(&min, dflt) {
-        cur = dflt;
+    let t1 = reduce_parts(&raw.parts, &|t| same(t, &cur));
+    (cur.cfg.clone(), t1)
+}
+
+fn min_key(prop: &str, sig: &str, cfg: &Cfg, t1: &str) -> String {
+    format!("{prop}\u{0}{sig}\u{0}{}\u{0}{t1}", cfg.to_json())
+}
+
+/// Step 2: character-level minimisation of a part-reduced text (memoised; a pure function of the key).
+fn minimise_reduced(ctx: &Ctx, sig: &str, cfg: &Cfg, t1: &str) -> String {
+    let cur = ctx.cs.build(cfg);
+    let clean = parse(t1, cur.level).get_errors().is_empty();
+    minimise_text_cached(&min_key(ctx.prop, sig, cfg, t1), t1, &|t| same_failure(ctx.judge, sig, clean, t, &cur))
+}
+
+/// Step 3: the minimal text may fail under the default configuration as well; describe the failure.
+fn finish(ctx: &Ctx, sig: &str, cfg: &Cfg, min: &str) -> Violation {
+    let mut cur = ctx.cs.build(cfg);
+    let clean = parse(min, cur.level).get_errors().is_empty();
+    if !cur.cfg.is_default() && same_failure(ctx.judge, sig, clean, min, ctx.dflt) {
+        cur = ctx.cs.build(&Cfg::default());
     }
-    let detail = match judge(&min, cur) {
+    let detail = match (ctx.judge)(min, &cur) {
         Verdict::Bad { detail, .. } => detail,
         other => format!("(minimal witness no longer fails: {other:?})"),
     };
     Violation { signature: sig.to_string(), witness: json!({"text": min, "config": cur.cfg.to_json()}), detail }
+}
+
+/// user+system CPU seconds of the calling thread (Linux, 10 ms ticks)
+fn thread_cpu_s() -> f64 {
+    let Ok(t) = std::fs::read_to_string("/proc/thread-self/stat") else { return 0.0 };
+    let Some(rest) = t.rsplit_once(')').map(|x| x.1) else { return 0.0 };
+    let f: Vec<&str> = rest.split_whitespace().collect();
+    let tick = |i: usize| f.get(i).and_then(|x| x.parse::<f64>().ok()).unwrap_or(0.0);
+    (tick(11) + tick(12)) / 100.0
+}
+
+/// bookkeeping of the minimisation stage (evidence: what was minimised, and the longest single step)
+#[derive(Default, Clone, Copy)]
+pub struct MinStats {
+    pub raw_cases: u64,
+    pub distinct_raw: u64,
+    pub distinct_keys: u64,
+    pub longest_reduce_cpu_s: f64,
+    pub longest_key_cpu_s: f64,
+    pub wall_s: f64,
+}
+static MIN_STATS: std::sync::Mutex<MinStats> = std::sync::Mutex::new(MinStats { raw_cases: 0, distinct_raw: 0, distinct_keys: 0, longest_reduce_cpu_s: 0.0, longest_key_cpu_s: 0.0, wall_s: 0.0 });
+
+/// Turn the raw violating cases of a phase into minimal witnesses. Every step is a pure function of
+/// its input, identical inputs are computed once, and each step runs on all worker threads — so the
+/// result does not depend on which thread met which case first.
+fn resolve(ctx: &Ctx, threads: usize, all: &mut Stats) {
+    use std::collections::BTreeMap;
+    use std::sync::Mutex;
+    let raws: Vec<Raw> = std::mem::take(&mut *RAWS.lock().unwrap());
+    if raws.is_empty() {
+        return;
+    }
+    let no_deadline = Deadline::after_secs(86_400.0);
+    let t_start = std::time::Instant::now();
+    let n_raw = raws.len() as u64;
+    // identical raw cases once
+    let mut distinct: BTreeMap<(String, String, Vec<String>), (Raw, u64)> = BTreeMap::new();
+    for r in raws {
+        let k = (r.sig.clone(), r.cfg.to_json().to_string(), r.parts.clone());
+        distinct.entry(k).and_modify(|e| e.1 += 1).or_insert((r, 1));
+    }
+    let distinct: Vec<(Raw, u64)> = distinct.into_values().collect();
+    // step 1 in parallel
+    let reduced: Vec<Mutex<Option<(Cfg, String)>>> = distinct.iter().map(|_| Mutex::new(None)).collect();
+    par_range(distinct.len() as u64, threads, &no_deadline, |i, _| {
+        let c0 = thread_cpu_s();
+        *reduced[i as usize].lock().unwrap() = Some(reduce(ctx, &distinct[i as usize].0));
+        let dt = thread_cpu_s() - c0;
+        let mut ms = MIN_STATS.lock().unwrap();
+        ms.longest_reduce_cpu_s = ms.longest_reduce_cpu_s.max(dt);
+    });
+    let reduced: Vec<(Cfg, String)> = reduced.into_iter().map(|m| m.into_inner().unwrap().expect("reduced")).collect();
+    // step 2: distinct (signature, configuration, reduced text) keys, longest text first, in parallel
+    let mut keys: BTreeMap<String, (String, Cfg, String)> = BTreeMap::new();
+    for ((raw, _), (cfg, t1)) in distinct.iter().zip(&reduced) {
+        keys.entry(min_key(ctx.prop, &raw.sig, cfg, t1)).or_insert_with(|| (raw.sig.clone(), cfg.clone(), t1.clone()));
+    }
+    let mut keys: Vec<(String, Cfg, String)> = keys.into_values().collect();
+    keys.sort_by_key(|k| std::cmp::Reverse(k.2.len()));
+    par_range(keys.len() as u64, threads.max(1), &no_deadline, |i, _| {
+        let (sig, cfg, t1) = &keys[i as usize];
+        let c0 = thread_cpu_s();
+        minimise_reduced(ctx, sig, cfg, t1);
+        let dt = thread_cpu_s() - c0;
+        let mut ms = MIN_STATS.lock().unwrap();
+        ms.longest_key_cpu_s = ms.longest_key_cpu_s.max(dt);
+    });
+    // step 3
+    for ((raw, n), (cfg, t1)) in distinct.iter().zip(&reduced) {
+        let min = minimise_reduced(ctx, &raw.sig, cfg, t1);
+        let v = finish(ctx, &raw.sig, cfg, &min);
+        for _ in 0..*n {
+            all.violation(v.clone());
+        }
+    }
+    let mut ms = MIN_STATS.lock().unwrap();
+    ms.raw_cases += n_raw;
+    ms.distinct_raw += distinct.len() as u64;
+    ms.distinct_keys += keys.len() as u64;
+    ms.wall_s += t_start.elapsed().as_secs_f64();
 }
 
 pub fn replay(cs: &ConfigSpace, w: &Value, judge: Judge) -> Option<Violation> {
@@ -105,7 +211,7 @@ impl Ctx<'_> {
                     return;
                 }
                 st.outcome(&format!("violation:{sig}"));
-                st.violation(minimise(self.prop, self.cs, self.dflt, parts, b, sig, self.judge));
+                RAWS.lock().unwrap().push(Raw { parts: parts.to_vec(), cfg: b.cfg.clone(), sig: sig.clone() });
             }
         }
         if sample {
@@ -125,6 +231,17 @@ struct Phase {
     name: String,
     cases: u64,
     complete: bool,
+    wall_s: f64,
+    cpu_s: f64,
+}
+
+/// user+system CPU seconds of this process so far (Linux: /proc/self/stat, clock ticks of 10 ms)
+pub fn process_cpu_s() -> f64 {
+    let Ok(t) = std::fs::read_to_string("/proc/self/stat") else { return 0.0 };
+    let Some(rest) = t.rsplit_once(')').map(|x| x.1) else { return 0.0 };
+    let f: Vec<&str> = rest.split_whitespace().collect();
+    let tick = |i: usize| f.get(i).and_then(|x| x.parse::<f64>().ok()).unwrap_or(0.0);
+    (tick(11) + tick(12)) / 100.0
 }
 
 pub fn explore(args: &Args, prop: &str, judge: Judge, oracle: &str) -> ! {
@@ -149,16 +266,30 @@ pub fn explore(args: &Args, prop: &str, judge: Judge, oracle: &str) -> ! {
     // generic runner: n texts × a config list
     let run = |name: &str, n: u64, parts_of: &(dyn Fn(u64) -> Vec<String> + Sync), cfgs: &[Built], all: &mut Stats, phases: &mut Vec<Phase>| {
         let stride = (n / 7).max(1);
-        let (st, ok) = par_range(n, threads, &dl, |i, st| {
-            let text = parts_of(i);
-            for (ci, b) in cfgs.iter().enumerate() {
+        let (t0, c0) = (std::time::Instant::now(), process_cpu_s());
+        // few, large texts (std files): one work unit per (text, configuration) so that all threads are busy
+        let nc = cfgs.len() as u64;
+        let per_pair = n < threads as u64 * 16;
+        let (st, ok) = if per_pair {
+            par_range(n * nc, threads, &dl, |j, st| {
+                let (i, ci) = (j / nc, (j % nc) as usize);
+                let text = parts_of(i);
                 let sample = i % stride == stride / 2 && ci == (i as usize / stride as usize * 5) % cfgs.len();
-                ctx.case(name, &text, b, st, sample);
-            }
-        });
+                ctx.case(name, &text, &cfgs[ci], st, sample);
+            })
+        } else {
+            par_range(n, threads, &dl, |i, st| {
+                let text = parts_of(i);
+                for (ci, b) in cfgs.iter().enumerate() {
+                    let sample = i % stride == stride / 2 && ci == (i as usize / stride as usize * 5) % cfgs.len();
+                    ctx.case(name, &text, b, st, sample);
+                }
+            })
+        };
         let done = st.evaluations;
         all.merge(st);
-        phases.push(Phase { name: name.to_string(), cases: done, complete: ok });
+        resolve(&ctx, threads, all);
+        phases.push(Phase { name: name.to_string(), cases: done, complete: ok, wall_s: t0.elapsed().as_secs_f64(), cpu_s: process_cpu_s() - c0 });
         ok
     };
 
@@ -172,13 +303,11 @@ pub fn explore(args: &Args, prop: &str, judge: Judge, oracle: &str) -> ! {
             w.iter().map(|&x| sigma[x].clone()).collect::<Vec<String>>()
         }
     };
+    // bound iterated upward: k=1 first; the large k=2 product runs after the small families below, so that
+    // a wall cap on a busy machine cuts into the largest phase and not into the distinct small ones
     let mut k_done_dev1 = 0;
-    for k in 1..=2 {
-        if run(&format!("Σf^{k}×dev≤1"), pow(ns, k as u32), &word(k), &dev01, &mut all, &mut phases) {
-            k_done_dev1 = k;
-        } else {
-            break;
-        }
+    if run("Σf^1×dev≤1", ns, &word(1), &dev01, &mut all, &mut phases) {
+        k_done_dev1 = 1;
     }
     // (B) expression derivations by depth
     let e1: Vec<String> = expr_depth1(ATOMS);
@@ -196,6 +325,9 @@ pub fn explore(args: &Args, prop: &str, judge: Judge, oracle: &str) -> ! {
         &mut all,
         &mut phases,
     );
+    // (B') string literals: quote characters after backslash runs × delimiters × positions
+    let strings = string_literal_family();
+    run("string-literals×dev≤1", strings.len() as u64, &|i| vec![strings[i as usize].clone()], &dev01, &mut all, &mut phases);
     // (C) bundled std library: paragraphs and whole files
     let paras = std_paragraphs();
     let files = std_files();
@@ -216,6 +348,9 @@ pub fn explore(args: &Args, prop: &str, judge: Judge, oracle: &str) -> ! {
         } else {
             break;
         }
+    }
+    if k_done_dev1 == 1 && run("Σf^2×dev≤1", pow(ns, 2), &word(2), &dev01, &mut all, &mut phases) {
+        k_done_dev1 = 2;
     }
     // thorough: one more level / one more deviation
     let mut k3_dev0 = false;
@@ -263,12 +398,13 @@ pub fn explore(args: &Args, prop: &str, judge: Judge, oracle: &str) -> ! {
     let targeted_ok = phases.iter().all(|p| p.complete);
     rep.exhaustive = targeted_ok;
     rep.rule = format!(
-        "programs = every sequence of ≤{} items of the statement/comment alphabet Σf (|Σf|={}: every statement form, table/call/string shapes, comments in every list position, every doc tag and type form, code fences, lines at width-1/width/width+1), every expression derivation of depth ≤2 over {} atoms/{} unary/{} binary operators, every paragraph ({}) and every file ({}) of the bundled std library, every word of the fragment alphabet Σ1^≤{} (|Σ1|={}, mostly invalid input){}; configurations = default + every single knob of LuaFormatConfig set to each of its other values ({} knobs, {} configurations{}); each (program, configuration) pair is evaluated once through emmylua_formatter::reformat_lua_code / check_text with the parser level luafmt would use (config.syntax.level). Oracle: {oracle}. Non-trivial = the formatter changed the text (or the case is a violation/undecided).",
+        "programs = every sequence of ≤{} items of the statement/comment alphabet Σf (|Σf|={}: every statement form, table/call/string shapes, comments in every list position, every doc tag and type form, code fences, lines at width-1/width/width+1), every expression derivation of depth ≤2 over {} atoms/{} unary/{} binary operators, every string literal whose body is ≤2 pieces over (each quote character after 0..3 backslashes, \\z, \\n, \\x41, \\u{{41}}, a backslash pair, a letter) in each of 4 delimiters and 4 syntactic positions ({} programs), every paragraph ({}) and every file ({}) of the bundled std library, every word of the fragment alphabet Σ1^≤{} (|Σ1|={}, mostly invalid input){}; configurations = default + every single knob of LuaFormatConfig set to each of its other values ({} knobs, {} configurations{}); each (program, configuration) pair is evaluated once through emmylua_formatter::reformat_lua_code / check_text with the parser level luafmt would use (config.syntax.level). Oracle: {oracle}. Non-trivial = the formatter changed the text (or the case is a violation/undecided).",
         if thorough { 3 } else { 2 },
         sigma.len(),
         ATOMS.len(),
         UNOPS.len(),
         BINOPS.len(),
+        strings.len(),
         paras.len(),
         files.len(),
         k_inv,
@@ -278,12 +414,17 @@ pub fn explore(args: &Args, prop: &str, judge: Judge, oracle: &str) -> ! {
         dev01.len(),
         if thorough { format!("; plus every pair of deviations ({}) on Σf^≤2", dev2.len()) } else { String::new() },
     );
+    let m = *MIN_STATS.lock().unwrap();
+    let min_json = json!({"raw_cases": m.raw_cases, "distinct_raw_cases": m.distinct_raw, "distinct_reduced_keys": m.distinct_keys,
+        "longest_single_reduction_cpu_s": m.longest_reduce_cpu_s, "longest_single_key_cpu_s": m.longest_key_cpu_s, "wall_s": (m.wall_s * 100.0).round() / 100.0});
     rep.bounds = json!({
         "sigma_f": sigma.len(), "k_completed_dev1": k_done_dev1, "k3_dev0_completed": k3_dev0, "k2_dev2_completed": k2_dev2,
         "k3_dev1_completed": k3_dev1, "sigma1_k_completed": k_done_inv,
         "configs_dev0_1": dev01.len(), "configs_dev2": dev2.len(), "knobs": cs.knobs.iter().map(|k| json!({"path": k.path, "other_values": k.others})).collect::<Vec<_>>(),
-        "phases": phases.iter().map(|p| json!({"phase": p.name, "cases": p.cases, "complete": p.complete})).collect::<Vec<_>>(),
+        "phases": phases.iter().map(|p| json!({"phase": p.name, "cases": p.cases, "complete": p.complete, "wall_s": (p.wall_s * 100.0).round() / 100.0, "cpu_s": (p.cpu_s * 100.0).round() / 100.0})).collect::<Vec<_>>(),
         "wall_cap_s": args.wall_cap_s, "wall_cap_hit": dl.was_hit(),
+        "minimisation": min_json,
+        "process_cpu_s": (process_cpu_s() * 100.0).round() / 100.0,
     });
     rep.assumptions = vec![
         "the repository's own parser is the reference for 'parses' and for token boundaries (its losslessness is C01's subject)".into(),
